@@ -7,11 +7,13 @@
 package main
 
 import (
+	"encoding/json"
 	"errors"
 	"fmt"
 	"os"
 
 	"verif/internal/orch"
+	"verif/internal/ptrace"
 )
 
 func usage() {
@@ -78,6 +80,26 @@ func run(args []string) (int, error) {
 			return 2, fmt.Errorf("no replay engine %q", rf.Engine)
 		}
 		return f(e, rf)
+	case "trace":
+		// helper process: run one program under the ptrace fault injector
+		if len(args) < 2 {
+			usage()
+		}
+		b, err := os.ReadFile(args[1])
+		if err != nil {
+			return 2, err
+		}
+		var sp ptrace.Spec
+		if err := json.Unmarshal(b, &sp); err != nil {
+			return 2, err
+		}
+		res, err := ptrace.Run(&sp)
+		if err != nil {
+			return 2, err
+		}
+		out, _ := json.Marshal(res)
+		fmt.Println(string(out))
+		return 0, nil
 	case "setup":
 		e, err := orch.NewEnv("quick")
 		if err != nil {
